@@ -350,6 +350,14 @@ structure Decls where
   nonterms : List Str
   /-- `flexMode = true` (C++ target): lexemes go through `parseFlexDeclarations` -/
   flex : Bool
+  /-- names of `syntax.Model.Nonterms` after template instantiation and expansion, in order — the list
+  `resolver.addNonterms` iterates over (template instances `x_B`, groups `y$1`, lists `D_list`, `copt`, …;
+  uninstantiated templates are gone). `none`: a grammar without templates / nested constructs, where it
+  equals the accepted source nonterminals. The expander itself is not modelled: this list is an input. -/
+  final : Option (List Str)
+  /-- names of the mid-rule action nonterminals (`u$1`) created by `commandExtractor.extract` during
+  `generateTables`; they are appended to `Syms` with a CamelCase ID and NO collision check -/
+  midrule : List Str
 
 /-- One lexeme in `lexerCompiler.parseFlexDeclarations`: a second declaration of a name is an error
 ("redeclaration of '%v'") and is skipped; the explicit ID is normalised by the same test. -/
@@ -376,18 +384,31 @@ structure Result where
   /-- nonterminal names that passed `collectNonterms` -/
   accepted : List Str
 
+/-- the nonterminals `addNonterms` registers -/
+def finalNts (d : Decls) (accepted : List Str) : List Str := d.final.getD accepted
+
 /-- `compiler.Compile` restricted to symbol registration: lexer phase, `collectNonterms`; when any
-error was reported so far `compileParser` returns early; otherwise `addNonterms`. -/
+error was reported so far `compileParser` returns early; otherwise `addNonterms` over the expanded
+model, then `commandExtractor.finalize` appends the mid-rule nonterminals (unchecked). -/
 def compileSyms (d : Decls) : Result :=
   let st1 := tokenPhase d
   let (acc, errs2) := collectNonterms st1 d.nonterms [] st1.errs
   if errs2.isEmpty then
-    let st3 := acc.foldl addNonterm st1
-    ⟨st3.syms, st3.errs, acc⟩
+    let st3 := (finalNts d acc).foldl addNonterm st1
+    ⟨st3.syms ++ d.midrule.map (fun n => ⟨n, produce n .camelCase⟩), st3.errs, acc⟩
   else ⟨st1.syms, errs2, acc⟩
 
-/-- IDs of all declared symbols: the terminals (in `Syms` order) and the accepted nonterminals. -/
+/-- IDs of all source-declared symbols: the terminals (in `Syms` order) and the accepted nonterminals. -/
 def declaredIds (d : Decls) : List Str :=
   (tokenPhase d).syms.map (·.id) ++ (compileSyms d).accepted.map (fun n => produce n .camelCase)
+
+/-- IDs of the symbols registered by the resolver: terminals and the nonterminals of the expanded model. -/
+def finalIds (d : Decls) : List Str :=
+  (tokenPhase d).syms.map (·.id) ++
+    (finalNts d (compileSyms d).accepted).map (fun n => produce n .camelCase)
+
+/-- IDs of all symbols of the compiled grammar (`grammar.Syms`), mid-rule nonterminals included. -/
+def allIds (d : Decls) : List Str :=
+  finalIds d ++ d.midrule.map (fun n => produce n .camelCase)
 
 end TmVerif.Ident
